@@ -308,6 +308,30 @@ Definition check_retry (is_row : bool) (input output : J) : verdict :=
   | _ => malformed
   end.
 
+(* plain retry_with_backoff with a budget too large for unary fuel (up to u32::MAX):
+   in = [budget, script]; the model loop is run with fuel = script length + 2, which is the
+   full run unless it answers Diverge (Proofs/CloudOps.v, retry_loop_enough_fuel) *)
+Definition check_big (input output : J) : verdict :=
+  match input with
+  | JL [JI b; jp] =>
+      match jints jp with
+      | Some s =>
+          if negb (forallb sym_ok s && (0 <=? b)) then malformed else
+          match jints output with
+          | Some code =>
+              let c := cfg0 (Z.to_N b) in
+              let m := code_of_run (retry_loop c (script_op s) (List.length s + 2) 0 0 0) in
+              let lead := lead_tr s in
+              let a := Z.min (Z.max 1 b) (Z.of_nat lead + 1) in
+              let sym := nth (Z.to_nat (a - 1)) s (last s 0) in
+              ok_verdict (zlist_eqb code m) (zlist_eqb code [a; sym; a])
+          | None => bad_out output
+          end
+      | None => malformed
+      end
+  | _ => malformed
+  end.
+
 Definition check_batch (input output : J) : verdict :=
   match input with
   | JL [JI api; JI n; JI size; JI fail; JB dup; JB par; JI errsym] =>
@@ -436,6 +460,7 @@ Definition check_parallel (input output : J) : verdict :=
 Definition check_C18 (kind : string) (input output : J) : verdict :=
   if String.eqb kind "rrow" then check_retry true input output
   else if String.eqb kind "rbucket" then check_retry false input output
+  else if String.eqb kind "rbig" then check_big input output
   else if String.eqb kind "batch" then check_batch input output
   else if String.eqb kind "page" then check_page input output
   else if String.eqb kind "timeout" then check_timeout input output
